@@ -46,7 +46,8 @@ def opQC (args obs : List String) : P String := do
     let o ← pOverflow o
     let res ← pList pRat res
     let ims ← pList pRat ims
-    if !((res ++ ims).all (inCoreDomain fmt)) then return "SKIP"
+    let floatSat := o == .saturate && decide (0 ≤ fmt.nfrac) && decide (1 ≤ fmt.nword ∧ fmt.nword ≤ 52 ∧ fmt.nfrac ≤ fmt.nword + 8)
+    if !((res ++ ims).all (fun v => inCoreDomain fmt v || floatSat)) then return "SKIP"
     let cr := res.map (quantize fmt r o)
     let ci := ims.map (quantize fmt r o)
     pure (functional [showList toString cr, showList toString ci,
